@@ -43,7 +43,7 @@ func (e hashAd[T]) Hash(a V) uint32 { return e.in.Hash(a.(T)) }
 
 func eraseHashable[T any](in fp.Hashable[T]) fp.Hashable[V] { return hashAd[T]{in} }
 
-func givenEq[T comparable]() fp.Eq[V]          { return eraseEq[T](eq.Given[T]()) }
+func givenEq[T comparable]() fp.Eq[V]              { return eraseEq[T](eq.Given[T]()) }
 func numberHash[T fp.ImplicitNum]() fp.Hashable[V] { return eraseHashable[T](hash.Number[T]()) }
 
 var eqLeaf = map[string]func() fp.Eq[V]{
@@ -617,9 +617,9 @@ func runCase(w *vrt.W, i int) {
 
 func casesPerBatch(tier string) int {
 	if tier == "thorough" {
-		return 1200
+		return 4000
 	}
-	return 600
+	return 1500
 }
 
 func main() {
@@ -637,7 +637,7 @@ func main() {
 				runCase(w, i)
 			}
 		},
-		Rule: "case = one instance expression + one value pool. The expression is drawn by a PRNG over the exported instances/combinators of eq (Given over 16 comparable kinds, String, Bytes, Time, Option, Seq, Slice, Ptr via lazy.Done|lazy.Call, PtrGiven, GoMap, FpMap, Tuple1..21, HCons/HNil, ContraMap through id/half/neg/len/lower/floor/isDefined/tuple projection), nested up to 3 combinators deep with every component type instantiated at any; case i forces catalogue entry i mod 66 (each eq/hash instance and every tuple arity) at nesting level 0,1,2(,3), so every instance occurs at every level. When all nodes have a hash counterpart (Number over 13 numeric kinds, String, Bytes, Option, Seq, Slice, Ptr, Tuple1..21, HCons/HNil, ContraMap) the hash.* expression of the same shape is checked as well. The pool (>=24 quick / >=40 thorough values) holds random base values, copies in another representation (nil vs empty vs spare capacity, 0.0 vs -0.0, other time zone, other pointer, other map history / the zero fp.Map), one single-position mutant per tuple component / sequence element of the first base value, prefixes/extensions, and random further mutants. All ordered pairs and all triples are evaluated: reflexive (also against a fresh structurally identical build), symmetric, transitive, Eqv == structural reference on the models (Go == at leaves, instants for time, nil == empty, pointers by target, maps by key), Eqv repeatable; Hash repeatable, equal on the fresh build, equal for Eqv-equal values. NaN never generated. distinct_nontrivial counts distinct (expression, pool) fingerprints of cases whose pool contained at least one pair of equal values in different representations (or distinct values collapsed by a ContraMap function) AND at least one pair exactly one position apart that is unequal.",
+		Rule: "case = one instance expression + one value pool. The expression is drawn by a PRNG over the exported instances/combinators of eq (Given over 16 comparable kinds, String, Bytes, Time, Option, Seq, Slice, Ptr via lazy.Done|lazy.Call, PtrGiven, GoMap, FpMap, Tuple1..21, HCons/HNil, ContraMap through id/half/neg/len/lower/floor/isDefined/tuple projection), nested up to 3 combinators deep with every component type instantiated at any; global case number g forces catalogue entry g mod 66 (each eq/hash instance and every tuple arity) at nesting level 0,1,2(,3), so every instance occurs at every level. When all nodes have a hash counterpart (Number over 13 numeric kinds, String, Bytes, Option, Seq, Slice, Ptr, Tuple1..21, HCons/HNil, ContraMap) the hash.* expression of the same shape is checked as well. The pool (>=24 quick / >=40 thorough values) holds random base values, copies in another representation (nil vs empty vs spare capacity, 0.0 vs -0.0, other time zone, other pointer, other map history / the zero fp.Map), one single-position mutant per tuple component / sequence element of the first base value, prefixes/extensions, and random further mutants. All ordered pairs and all triples are evaluated: reflexive (also against a fresh structurally identical build), symmetric, transitive, Eqv == structural reference on the models (Go == at leaves, instants for time, nil == empty, pointers by target, maps by key), Eqv repeatable; Hash repeatable, equal on the fresh build, equal for Eqv-equal values. NaN never generated. distinct_nontrivial counts distinct (expression, pool) fingerprints of cases whose pool contained at least one pair of equal values in different representations (or distinct values collapsed by a ContraMap function) AND at least one pair exactly one position apart that is unequal.",
 		Assumptions: []string{
 			"component types are instantiated at any (boxed values); the generic library code is the same for every type argument",
 			"functions given to ContraMap are pure",
